@@ -186,7 +186,13 @@ fn tokens_line(tokens: &[Token]) -> String {
 }
 
 fn do_lex(src: &str) -> String {
-    match Lexer::scan(src.to_string(), "case.ap".to_string()) {
+    let scanned = Lexer::scan(src.to_string(), "case.ap".to_string());
+    // the tool reaches the scanner through ApLang::lex(): it must accept and reject exactly the same texts
+    let api_ok = ApLang::new_from_stdin(src.to_string()).lex().is_ok();
+    if api_ok != scanned.is_ok() {
+        return format!("APIMISMATCH scan_ok={} api_ok={}", scanned.is_ok(), api_ok);
+    }
+    match scanned {
         Ok(tokens) => tokens_line(&tokens),
         Err(reports) => reports_line("ERR", &reports),
     }
